@@ -88,6 +88,24 @@ def apply_op(m, op):
         return m.element_finder()
     if name == 'boundary_queries':
         return (m.boundary_facets(), m.boundary_nodes(), m.interior_nodes())
+    if name == 'use':                           # USE the mesh (instantiates mapping, entities, finder ...) and keep it
+        import skfem
+        from skfem.assembly import Basis, FacetBasis
+        el = m.elem()
+        Basis(m, el)
+        if dim > 1 and type(m).__name__ != 'MeshWedge1':
+            FacetBasis(m, el)
+            m.facets_satisfying(lambda x: x[0] <= x[0].max(), normal=np.array([1.] + [0.] * (dim - 1)))
+        m.element_finder()(*[np.array([float(v)]) for v in m.p[:, m.t[:, 0]].mean(axis=1)])
+        if hasattr(m, 'orientation') and dim > 1:
+            m.orientation()
+        m.boundary_nodes()
+        return m
+    if name == 'morphed':                       # shear:  x_a += k * x_b
+        a, b_, k = int(args[0]) % dim, int(args[1]) % dim, float(args[2])
+        funs = [None] * dim
+        funs[a] = (lambda q: q[a] + k * q[b_])
+        return m.morphed(*funs)
     if name == 'curved':                        # second-order mesh with displaced mid nodes
         import skfem
         kind = {'MeshTri1': 'tri', 'MeshQuad1': 'quad', 'MeshTet1': 'tet', 'MeshHex1': 'hex'}[type(m).__name__]
